@@ -7,4 +7,6 @@ export CARGO_NET_OFFLINE=true
 python3-vt -c "import z3; print('z3', z3.get_version_string())"
 (cd mirdump && cargo +nightly build --offline 2>&1 | tail -2)
 ./check build
+# differential test of the std models (native vs interpreter on the API exerciser); reported, not fatal for setup
+./stdx_selftest.py 0,1,2,3,4,5,6,7,8 2 || echo "WARNING: std model exerciser disagrees (see above)"
 echo setup done
